@@ -401,7 +401,7 @@ fn run(args: &Args) {
     });
 
     // Part 1
-    let cases = args.tier.pick(4000u32, 40_000u32);
+    let cases = args.tier.pick(4000u32, 200_000u32);
     for prog in 0..generated::PROGRAMS {
         let idx: Vec<usize> = (0..ENTRIES.len()).filter(|i| ENTRIES[*i].prog == prog).collect();
         let mut classes: BTreeMap<(u32, &str, u8), Vec<usize>> = BTreeMap::new();
